@@ -15,6 +15,8 @@ const (
 	redirect = "https://rp.example.com/cb"
 	expFar   = 4102444800 // 2100-01-01
 	iatPast  = 1600000000 // 2020-09-13
+	expPast  = 1700000000 // 2023-11-14 (TokSpec.Time "expired")
+	iatFar   = 4000000000 // 2096-10-02 (TokSpec.Time "iat-future")
 	qState   = "q-state"
 	qNonce   = "q-nonce"
 )
@@ -33,20 +35,48 @@ func payloadFor(c Case, who, mark string) []byte {
 	if c.Tok.Sub != "" {
 		sub = c.Tok.Sub
 	}
+	times := timeMembers(c)
 	switch kind {
 	case kRPStatic, kRPRemote:
-		fmt.Fprintf(&b, `{"iss":%s,"sub":%s,"aud":[%s],"exp":%d,"iat":%d,"mark":%s}`, js(issuer), js("user-"+mark), js(rpClient), expFar, iatPast, js(mark))
+		fmt.Fprintf(&b, `{"iss":%s,"sub":%s,"aud":[%s],%s,"mark":%s}`, js(issuer), js("user-"+mark), js(rpClient), times, js(mark))
 	case kOPAccess, kProvAcc:
-		fmt.Fprintf(&b, `{"iss":%s,"sub":%s,"aud":["api"],"exp":%d,"iat":%d,"jti":%s,"mark":%s}`, js(issuer), js("user-"+mark), expFar, iatPast, js("tok-"+mark), js(mark))
-	case kOPHint, kHintHTTP, kProvHint:
-		fmt.Fprintf(&b, `{"iss":%s,"sub":%s,"aud":["c1"],"exp":%d,"iat":%d,"mark":%s}`, js(issuer), js("user-"+mark), expFar, iatPast, js(mark))
+		fmt.Fprintf(&b, `{"iss":%s,"sub":%s,"aud":["api"],%s,"jti":%s,"mark":%s}`, js(issuer), js("user-"+mark), times, js("tok-"+mark), js(mark))
+	case kOPHint, kHintHTTP, kHintEnd, kProvHint:
+		fmt.Fprintf(&b, `{"iss":%s,"sub":%s,"aud":["c1"],%s,"mark":%s}`, js(issuer), js("user-"+mark), times, js(mark))
 	case kAssert, kAssertKS:
-		fmt.Fprintf(&b, `{"iss":%s,"sub":%s,"aud":[%s],"exp":%d,"iat":%d,"mark":%s}`, js(who), js(sub), js(issuer), expFar, iatPast, js(mark))
+		fmt.Fprintf(&b, `{"iss":%s,"sub":%s,"aud":[%s],%s,"mark":%s}`, js(who), js(sub), js(issuer), times, js(mark))
 	case kReqObj, kReqHTTP:
-		fmt.Fprintf(&b, `{"iss":%s,"client_id":%s,"aud":[%s],"response_type":"code","redirect_uri":%s,"scope":"openid","state":%s,"nonce":%s,"mark":%s}`,
-			js(who), js(who), js(issuer), js(redirect), js("st-"+mark), js("n-"+mark), js(mark))
+		// iss / client_id members as the case names them (ordinary object: both = who)
+		b.WriteString("{")
+		if who != "absent" {
+			fmt.Fprintf(&b, `"iss":%s,`, js(who))
+		}
+		if cid, ok := cidMember(c.Tok, who); ok {
+			fmt.Fprintf(&b, `"client_id":%s,`, js(cid))
+		}
+		fmt.Fprintf(&b, `"aud":[%s],"response_type":"code","redirect_uri":%s,"scope":"openid","state":%s,"nonce":%s,"mark":%s}`,
+			js(issuer), js(redirect), js("st-"+mark), js("n-"+mark), js(mark))
 	}
 	return []byte(b.String())
+}
+
+// timeMembers renders the time claims of the case's token (fixed values, years away from any clock reading).
+func timeMembers(c Case) string {
+	exp, iat := int64(expFar), int64(iatPast)
+	switch c.Tok.Time {
+	case "expired":
+		exp = expPast
+	case "iat-future":
+		iat = iatFar
+	}
+	s := fmt.Sprintf(`"exp":%d,"iat":%d`, exp, iat)
+	if c.Tok.Time == "exp-missing" {
+		s = fmt.Sprintf(`"iat":%d`, iat)
+	}
+	if c.Kind == kOPHint && c.Stale == "auth" {
+		s += fmt.Sprintf(`,"auth_time":%d`, iatPast)
+	}
+	return s
 }
 
 // believed-claims view: the members by which "whose payload was believed" is recognised, per kind
@@ -54,7 +84,7 @@ func viewKeys(kind string) []string {
 	switch kind {
 	case kOPAccess, kProvAcc:
 		return []string{"iss", "sub", "jti", "mark"}
-	case kHintHTTP:
+	case kHintHTTP, kHintEnd:
 		return []string{"sub"}
 	case kReqObj, kReqHTTP:
 		return []string{"state", "nonce"}
@@ -199,7 +229,8 @@ func buildToken(c Case) (*built, error) { return buildTokenFrom(c, nil) }
 
 // sameSigning: two token specs describe the same genuinely signed token (header and payload bytes agree)
 func sameSigning(a, b TokSpec) bool {
-	return a.Alg == b.Alg && a.Key == b.Key && a.KID == b.KID && a.HasKID == b.HasKID && a.Iss == b.Iss && a.Sub == b.Sub && a.EmbedJWK == b.EmbedJWK
+	return a.Alg == b.Alg && a.Key == b.Key && a.KID == b.KID && a.HasKID == b.HasKID && a.Iss == b.Iss && a.Sub == b.Sub && a.EmbedJWK == b.EmbedJWK &&
+		a.Time == b.Time && a.CID == b.CID
 }
 
 // buildTokenFrom: as buildToken; if base is given it is the genuinely signed token of an earlier call of the same case
